@@ -5,12 +5,12 @@
 FUNCTIONAL = {"post", "refines", "lemma", "shape", "safe", "pre", "inv"}
 KINDS = {
     "C01": FUNCTIONAL,
-    "C02": {"post", "refines", "lemma", "pre"},
+    "C02": {"post", "refines", "lemma", "pre", "frame"},
     "C03": FUNCTIONAL | {"defined"},
-    "C04": FUNCTIONAL,
+    "C04": FUNCTIONAL | {"frame"},
     "C05": FUNCTIONAL,
-    "C06": FUNCTIONAL,
-    "C07": {"safe", "shape", "defined", "pre", "lemma"},
+    "C06": FUNCTIONAL | {"frame"},
+    "C07": {"safe", "shape", "defined", "pre", "lemma", "frame"},
     "C08": FUNCTIONAL | {"frame"},
     "C09": FUNCTIONAL,
     "C10": {"post", "lemma", "refines"},
@@ -22,7 +22,7 @@ KINDS = {
     "C16": FUNCTIONAL,
     "C17": {"lemma", "refines", "post"},
     "C18": {"lemma", "refines", "post"},
-    "C19": FUNCTIONAL,
+    "C19": FUNCTIONAL | {"frame"},
 }
 
 
